@@ -1,6 +1,7 @@
 """C03 — {var:} output is HTML-safe for every string; {raw:} is verbatim."""
 import itertools
 from vlib import core
+from checks import _tmpl_streams as T
 
 META = {
     "property_id": "C03",
@@ -140,6 +141,7 @@ def run(ctx):
                     ctx.fail("oracle:not-idempotent", "escaping the escaped text changed it: %s -> %s" % (l2[j], o), {"line": l2[j], "impl_output": o})
             ctx.count("idempotence-on-impl", len(l2), len(set(l2)))
     template_paths(ctx, drv, h_on, h_off, inputs)
+    T.c03_round_c(ctx, drv, h_on, h_off, inputs)     # copied tag arrays, nested raw/var positions, wide units (round c)
     ctx.assumptions += ["code units modelled as Nat; widths 1/2/4/wchar_t exercised by the harness",
                         "template print paths reach the escaper only through StringUtils::EscapeHTMLSpecialChars (checked by rendering in C01/C02 harness)"]
 
@@ -216,5 +218,5 @@ def template_paths(ctx, drv, h_on, h_off, inputs):
 
 
 FINISH = dict(level="proof",
-              rule="exhaustive strings up to length 5 (quick) / 7 (thorough) over three entity-fragment alphabets, mutated and truncated entities at every distance from the end, random strings over all code units; 4 widths x flag on/off; non-trivial = contains a special character",
+              rule="exhaustive strings up to length 5 (quick) / 7 (thorough) over three entity-fragment alphabets, mutated and truncated entities at every distance from the end, random strings over all code units; 4 widths x flag on/off; round c: every print path also through copied tag arrays and in nested positions (loop / if / inline-if / svar sub-tags), wide strings on every path; non-trivial = contains a special character",
               checker_cmd="cd lean && lake build Qentem.Props.C03 && lake env lean <#print axioms of the 7 theorems>")
